@@ -421,6 +421,27 @@ theorem replaceNode_abs2 {fn : Fn R} {c c' : Cell R} {start : Edge} {old new k :
   have W := walk2 H _ 0 c [] [] _ (WalkState.init old new F N _ hI) (by omega) h1
   exact ⟨W.slots_final H.fan, W.idx, W.freeFaces⟩
 
+/-- the two edge lists returned by the second walk -/
+theorem replaceNode_lists2 {fn : Fn R} {c c' : Cell R} {start : Edge} {old new k : Nat} {F N : Nat → Nat}
+    {del cre : List Edge} (h : replaceNode fn c start old new = .ok (c', del, cre))
+    (hI : EdgeIdxComplete c) (H : Walk2Hyp (slots c) start old new k F N)
+    (hkey : Edge.keyOf start.n1 start.n2 = Edge.keyOf old (N 0)) :
+    (∀ m, m < k → ∃ x ∈ del, x.key = Edge.keyOf old (N m)) ∧
+    (∀ y ∈ cre, ∃ m, m < k ∧ CreOK new N (Q2 old new k F N (SideK (slots c))) m y) := by
+  have hk3 := H.k3
+  unfold replaceNode at h
+  obtain ⟨sf1, hsf, h⟩ := bind_ok h
+  obtain ⟨⟨c1, d1, cr1⟩, h1, h⟩ := bind_ok h
+  cases h
+  have e1 : start.f1 = some sf1 := by opt_ok hsf
+  rw [H.sf1] at e1; cases e1
+  rw [hkey] at h1
+  obtain ⟨dl, cr, q1, q2, q3, q4⟩ := (walk2' H _ 0 c [] [] _ (WalkState.init old new F N _ hI) (by omega) h1).2
+  simp only [List.nil_append] at q1 q2
+  subst q1; subst q2
+  exact ⟨fun m hm => q3 m (Nat.zero_le _) hm, fun y hy => by
+    obtain ⟨m, _, b, c⟩ := q4 y hy; exact ⟨m, b, c⟩⟩
+
 end
 
 end Simu.Remesh
